@@ -10,10 +10,17 @@ import sys
 import time
 
 ROOT = "/verif"
-OUT = os.path.join(ROOT, "out")
+# VERIF_SANDBOX=<dir>: run the same machinery against <dir>/repo (a scratch worktree), building into <dir>/build and
+# writing results, caches and evidence below <dir> -- used by lib/selftest.py so that seeded changes never touch
+# /repo, /verif/build or /verif/evidence.  Unset (the registered commands): /repo and /verif.
+SANDBOX = os.environ.get("VERIF_SANDBOX", "")
+REPO = os.path.join(SANDBOX, "repo") if SANDBOX else "/repo"
+BUILD = os.path.join(SANDBOX, "build") if SANDBOX else os.path.join(ROOT, "build")
+OUT = os.path.join(SANDBOX, "out") if SANDBOX else os.path.join(ROOT, "out")
+EVIDENCE = os.path.join(SANDBOX, "evidence") if SANDBOX else os.path.join(ROOT, "evidence")
 SPEC = os.path.join(ROOT, "spec")
-BIN = os.path.join(ROOT, "build", "bin")
-HOOKS = os.path.join(ROOT, "build", "hooks")
+BIN = os.path.join(BUILD, "bin")
+HOOKS = os.path.join(BUILD, "hooks")
 TLA_JAR = "/opt/veriftools/tla/tla2tools.jar:/opt/veriftools/tla/CommunityModules-deps.jar"
 NCPU = 16
 
@@ -33,9 +40,9 @@ def sh(cmd, **kw):
 
 def ensure_build():
     """incremental build of /repo's working tree + harnesses, serialised by flock"""
-    os.makedirs(os.path.join(ROOT, "build"), exist_ok=True)
+    os.makedirs(BUILD, exist_ok=True)
     os.makedirs(OUT, exist_ok=True)
-    r = sh("flock %s/build/.lock make -s -C %s build" % (ROOT, ROOT), stdout=subprocess.PIPE,
+    r = sh("flock %s/.lock make -s -C %s build REPO=%s B=%s" % (BUILD, ROOT, REPO, BUILD), stdout=subprocess.PIPE,
            stderr=subprocess.STDOUT, text=True)
     if r.returncode != 0:
         print(r.stdout[-4000:])
@@ -163,11 +170,11 @@ def load_known():
 
 # ------------------------------------------------------------------ evidence
 def write_evidence(pid, tier, level, coverage, wall_s, violations, assumptions=()):
-    os.makedirs(os.path.join(ROOT, "evidence"), exist_ok=True)
+    os.makedirs(EVIDENCE, exist_ok=True)
     ev = {"property_id": pid, "tier": tier, "seed": seed(), "level": level,
           "coverage": coverage, "assumptions": list(assumptions),
           "wall_s": round(wall_s, 2), "violations": violations}
-    with open(os.path.join(ROOT, "evidence", pid + ".json"), "w") as f:
+    with open(os.path.join(EVIDENCE, pid + ".json"), "w") as f:
         json.dump(ev, f, indent=1)
     return ev
 
